@@ -785,7 +785,7 @@ def check_dup(ctx, prog):
             ops = list(w.get('a') or []) + ([w['obj']] if w.get('obj') is not None else [])
             return any(x.get('k') == 'this' for o_ in ops for x in walk_expr(o_))
         enum_this = any(w.get('k') in ('construct', 'call') and ('numerator' in (w.get('fn') or w.get('cls') or '') or (w.get('pq') or '').split('::')[-1] == 'all') and mentions_this(w) for w in fn_exprs(f))
-        swaps = [e for e in fn_exprs(f) if e.get('k') == 'call' and (e.get('pq') or e.get('fn') or '').split('<')[0].split('::')[-1] == 'swap']
+        swaps = [e for e in q.fn_exprs_inlined(prog, f) if e.get('k') == 'call' and (e.get('pq') or e.get('fn') or '').split('<')[0].split('::')[-1] == 'swap']
         seen.add(role)
         n += 1
         if reinserts and enum_this and swaps and not news:
